@@ -43,6 +43,9 @@ enum COp {
     Advance { ns: u32 },
     /// one complete iteration; every yielded (key, value) is judged like a `get` that spans it
     Iter,
+    /// an iterator is created and yields its first item, then the thread ticks the clock and calls
+    /// invalidate_all, then drains the iterator (logged as iteration, invalidate_all, iteration)
+    IterInv,
 }
 
 impl COp {
@@ -56,6 +59,7 @@ impl COp {
             COp::Sync => "sync".into(),
             COp::Advance { ns } => format!("advance {}", ns),
             COp::Iter => "iter".into(),
+            COp::IterInv => "iter_inv".into(),
         }
     }
     fn parse(s: &str) -> Option<COp> {
@@ -71,6 +75,7 @@ impl COp {
             "sync" => COp::Sync,
             "advance" => COp::Advance { ns: num()? },
             "iter" => COp::Iter,
+            "iter_inv" => COp::IterInv,
             _ => return None,
         })
     }
@@ -216,7 +221,11 @@ fn gen_disorder_prog(rng: &mut Rng) -> Prog {
     t2.push(COp::InvalidateAll);
     t2.push(COp::Insert { k: b, w: w(rng) });
     for _ in 0..rng.range(0, 2) {
-        t2.push(if rng.chance(1, 4) { COp::Iter } else { COp::Get { k: b } });
+        t2.push(match rng.below(8) {
+            0 => COp::Iter,
+            1 => COp::IterInv,
+            _ => COp::Get { k: b },
+        });
     }
     if rng.chance(1, 2) {
         t2.push(COp::Sync);
@@ -281,7 +290,7 @@ fn gen_prog(rng: &mut Rng) -> Prog {
             ops.push(match rng.below(if short_expiry(&cfg) { 23 } else { 20 }) {
                 0..=7 => COp::Insert { k, w },
                 8..=12 => COp::Get { k },
-                13 => COp::Iter,
+                13 => *rng.pick(&[COp::Iter, COp::Iter, COp::IterInv]),
                 14 => COp::Contains { k },
                 15 | 16 => COp::Invalidate { k },
                 17 => COp::InvalidateAll,
@@ -335,7 +344,50 @@ impl Shared {
     }
 }
 
+thread_local! {
+    /// set while this thread holds a guard of the hash map across library calls: the serialized
+    /// scheduler must not hand the baton to a thread that would block on that guard
+    static NO_SWITCH: std::cell::Cell<bool> = const { std::cell::Cell::new(false) };
+}
+
+fn exec_iter_inv(sh: &Shared, tid: usize, log: &mut Vec<Ev>) {
+    let blank = |op: COp| Ev { tid, op, vid: 0, call: 0, ret: 0, result: None, clock_call: sh.now(), clock_ret: 0, done: false, items: Vec::new() };
+    NO_SWITCH.with(|c| c.set(true));
+    let mut first = blank(COp::Iter);
+    first.call = stamp();
+    let mut it = sh.cache.iter();
+    if let Some(e) = it.next() {
+        first.items.push((e.key().id, e.value().vid));
+    }
+    first.ret = stamp();
+    first.clock_ret = sh.now();
+    first.done = true;
+    log.push(first);
+    let mut inv = blank(COp::InvalidateAll);
+    sh.clock.advance(Duration::from_nanos(1));
+    inv.clock_call = sh.now();
+    inv.call = stamp();
+    log.push(inv.clone());
+    let idx = log.len() - 1;
+    sh.cache.invalidate_all();
+    inv.ret = stamp();
+    inv.clock_ret = sh.now();
+    inv.done = true;
+    log[idx] = inv;
+    let mut rest = blank(COp::Iter);
+    rest.call = stamp();
+    rest.items = it.map(|e| (e.key().id, e.value().vid)).collect();
+    rest.ret = stamp();
+    rest.clock_ret = sh.now();
+    rest.done = true;
+    log.push(rest);
+    NO_SWITCH.with(|c| c.set(false));
+}
+
 fn exec_op(sh: &Shared, tid: usize, counter: &mut u64, op: COp, log: &mut Vec<Ev>) {
+    if op == COp::IterInv {
+        return exec_iter_inv(sh, tid, log);
+    }
     let mut ev = Ev { tid, op, vid: 0, call: 0, ret: 0, result: None, clock_call: sh.now(), clock_ret: 0, done: false, items: Vec::new() };
     if let COp::Insert { .. } = op {
         *counter += 1;
@@ -362,6 +414,7 @@ fn exec_op(sh: &Shared, tid: usize, counter: &mut u64, op: COp, log: &mut Vec<Ev
         }
         COp::Advance { ns } => sh.clock.advance(Duration::from_nanos(ns as u64)),
         COp::Iter => ev.items = sh.cache.iter().map(|e| (e.key().id, e.value().vid)).collect(),
+        COp::IterInv => unreachable!(),
     }
     ev.ret = stamp();
     ev.clock_ret = sh.now();
@@ -472,7 +525,7 @@ fn check_history(evs: &[Ev], final_gets: &[(u32, Option<u64>)], final_stamp: u64
             if let Some(v) = res {
                 match writes.get(v) {
                     None => out.push(Violation {
-                        props: if *is_iter { vec!["C16"] } else { vec!["C02", "C01"] },
+                        props: if *is_iter { vec!["C16", "C01"] } else { vec!["C02", "C01"] },
                         sig: "concurrent:phantom-value".into(),
                         detail: format!("{} of key {} returned {}, which nobody wrote to it", who, k, v),
                         op_index: 0,
@@ -500,7 +553,7 @@ fn check_history(evs: &[Ev], final_gets: &[(u32, Option<u64>)], final_stamp: u64
                         }
                         if let Some(by) = superseded(w, *begin, *k) {
                             // C01 in its concurrent reading: not the latest live value
-                            let mut props = if *is_iter { vec!["C16"] } else { vec!["C02", "C01"] };
+                            let mut props = if *is_iter { vec!["C16", "C01"] } else { vec!["C02", "C01"] };
                             if by.starts_with("invalidate") {
                                 props.push("C07");
                             }
@@ -829,7 +882,9 @@ fn run_program(prog: &Prog, mode: &str, strategy: Strategy, sseed: u64, stats: &
         let b2 = Arc::clone(&b);
         mini_moka::verif::set_switch_hook(Some(Arc::new(move |p| {
             common_hook(p);
-            b2.at(p)
+            if !NO_SWITCH.with(|c| c.get()) {
+                b2.at(p)
+            }
         })));
         Some(b)
     } else {
@@ -1377,7 +1432,11 @@ fn gen_storm_prog(rng: &mut Rng, scale: u64) -> Prog {
             let k = rng.below(keys as u64) as u32;
             ops.push(COp::Insert { k, w: 1 });
             ops.push(COp::InvalidateAll);
-            ops.push(if rng.chance(1, 3) { COp::Iter } else { COp::Get { k } });
+            ops.push(match rng.below(6) {
+                0 | 1 => COp::Iter,
+                2 => COp::IterInv,
+                _ => COp::Get { k },
+            });
         }
         threads.push(ops);
     }
@@ -1399,7 +1458,7 @@ fn gen_big_prog(rng: &mut Rng) -> Prog {
                 0..=15 => COp::Insert { k, w },
                 16..=29 => COp::Get { k },
                 30 => COp::Contains { k },
-                31 => COp::Iter,
+                31 => *rng.pick(&[COp::Iter, COp::Iter, COp::IterInv]),
                 32..=36 => COp::Invalidate { k },
                 37 => COp::InvalidateAll,
                 _ => COp::Sync,
